@@ -39,7 +39,8 @@ DECIDES = ('(a) unknown descriptor => stall and no data: every stall site of Get
            'start_position can hold the descriptor length (block: position register; distributed: the generator port) and '
            'offset == length yields a last-without-first beat (ZLP); (e) ROM layout: writer expressions of '
            'generate_rom_content (AST, linear forms) against the reader expressions of elaborate (IR, evaluated): word format '
-           '/ byte lane, type entry address, (count, pointer) packing, index entry address, data placement, alignment. ')
+           '/ byte lane, type entry address, (count, pointer) packing, index entry address, data placement, alignment; every '
+           'handler registered behind the descriptor multiplexer is built with max_packet_length = max_packet_size. ')
 NOT_DECIDED = ('byte equality of whole data stages as histories (the composition of the per-cycle facts over many packets); '
                'synchronous read latency of amaranth Memory; runtime (callable) descriptors; DeviceDescriptorCollection itself.')
 
